@@ -55,3 +55,7 @@ claim("C28",
       "The reader schedule is the solver variable: a harness io.Reader returns a symbolic number of bytes per call (0..min(len(p),remaining), <= 2 empty reads, optional data+EOF on the last call) over CBE document templates with symbolic payload, valid and truncated; z3 shows events and error-ness equal in-memory decoding for every schedule.",
       "Bounds: documents 3..12 bytes, 7 templates, cuts of 1..4 bytes. CTE and universal stream entry points delegate to io.Copy/bufio.Peek and then the ANTLR parser: outside reach.",
       "DESIGN.md §5 C28")
+claim("C29",
+      "The fault point is the solver variable: index k (0..31) of the failing Write call during cbe/cte Marshaler.Marshal and of the failing Read call (non-EOF error, optionally with partial data) during cbe.Decoder.Decode and cte.Decoder.Decode, over document templates with symbolic payload; z3 shows the entry returns a non-nil error whenever the fault was hit (and nil otherwise) and no panic escapes.",
+      "The marshaler's reflection walk (iterator.Session.Init, RootObjectIterator.Iterate) is replaced by a template event source and cte.ParseDocument by an accepting stub; Marshal wrappers, encoders, writers, readers and the CTE copy loop are the real code. Unmarshaler wrappers (builder sessions) not covered.",
+      "DESIGN.md §5 C29")
